@@ -461,6 +461,14 @@ func deriveTripCount(loop *Loop) {
 	if !ok {
 		return
 	}
+	// The formulas below count how often the exit test lets the loop continue. That is the number
+	// of body executions only when the test runs before any part of the body: in a bottom-tested
+	// loop (`for { body; if i >= n { break }; i++ }`) the body has already run once more by the
+	// time the test fails.
+	if exitBlock != loop.Header || !onlyComputesCondition(exitBlock, binOp) {
+		loop.TripCount = &SCEVUnknown{Value: nil}
+		return
+	}
 
 	var isUpCounting, ivOnLeft bool
 	var isInclusive, isNEQ bool
@@ -657,6 +665,29 @@ func deriveTripCount(loop *Loop) {
 		quotient := &SCEVGenericExpr{Op: token.QUO, X: numer, Y: absStep}
 		loop.TripCount = &SCEVMax{X: zero, Y: quotient}
 	}
+}
+
+// onlyComputesCondition reports whether every instruction of block b before its terminator is a
+// phi or only serves to compute cond (the loop is tested before any part of its body runs).
+func onlyComputesCondition(b *ssa.BasicBlock, cond ssa.Value) bool {
+	needed := map[ssa.Value]bool{cond: true}
+	for k := len(b.Instrs) - 2; k >= 0; k-- {
+		switch instr := b.Instrs[k].(type) {
+		case *ssa.Phi, *ssa.DebugRef:
+			continue
+		default:
+			v, isValue := instr.(ssa.Value)
+			if !isValue || !needed[v] {
+				return false
+			}
+			for _, op := range instr.Operands(nil) {
+				if op != nil && *op != nil {
+					needed[*op] = true
+				}
+			}
+		}
+	}
+	return true
 }
 
 func ToSCEV(v ssa.Value, loop *Loop) SCEV {
